@@ -44,7 +44,7 @@ class ObsList(list):
 
 class ItemState:
     __slots__ = ("item", "iid", "kind", "state", "where", "source", "t_created", "t_first_put", "last_edge", "last_getter",
-                 "hist", "t_state", "stamps")
+                 "hist", "t_state", "stamps", "out_try", "can_log", "last_stamp")
 
     def __init__(self, item, kind, source, t):
         self.item = item
@@ -60,6 +60,9 @@ class ItemState:
         self.hist = []
         self.t_state = t
         self.stamps = []
+        self.out_try = None
+        self.can_log = []
+        self.last_stamp = None
 
 
 class Unit:
@@ -109,6 +112,9 @@ class NodeLedger:
         self.inside = {}           # id(item) -> ItemState placed in this node (IN_NODE / CREATED)
         self.can_calls = 0
         self.gathering = None      # combiner: Unit being gathered
+        self.put_batches = {}      # proc -> (slice, [(out idx, TokRec)])
+        self.get_batches = {}
+        self.fa_checks = 0
         self.n_ingredients = 0
 
 
@@ -288,12 +294,7 @@ class FactoryOracle:
             u = self._unit_of_proc(L, proc)
             if u is not None:
                 self._offer(L, u)
-                if u.first_try_edge is None:
-                    u.first_try_edge = self.edge_idx_out.get(id(edge))
-                    if L.node._spec.get("out_sel") != "FIRST_AVAILABLE":
-                        L.first_tries_out.append(u.first_try_edge)
-            elif L.type == "source" and L.node._spec.get("out_sel") != "FIRST_AVAILABLE":
-                L.first_tries_out.append(self.edge_idx_out.get(id(edge)))
+            self._attempt(L, proc, edge, res if exc is None else None)
             if exc is None:
                 # C11: the answer must agree with the shadow model of the edge
                 store = getattr(edge, "inbuiltstore", None)
@@ -304,6 +305,30 @@ class FactoryOracle:
                     if bool(res) != exp:
                         self.mon.violation("C11", "can_query_inexact", f"{sh.kind}:can_put={bool(res)}-but-free-space={sh.free()}",
                                            {"edge": edge.id, "held": len(sh.held), "granted_put": len(sh.grant["put"]), "cap": sh.cap})
+
+    def _item_of_proc(self, proc):
+        if proc is None:
+            return None
+        if proc.mon_name == "_push_item":
+            a = proc.mon_args
+            x = a.get("item_to_push")
+            if x is None:
+                x = a.get("item")
+            return x
+        return proc.mon_locals().get("item")
+
+    def _attempt(self, L, proc, edge, can_result):
+        x = self._item_of_proc(proc)
+        st = self.items.get(id(x)) if x is not None else None
+        if st is None:
+            self.mon.counters["attempt_without_item"] += 1
+            return
+        idx = self.edge_idx_out.get(id(edge))
+        if can_result is not None:
+            st.can_log.append((idx, bool(can_result)))
+        if st.out_try is None:
+            st.out_try = idx
+            L.first_tries_out.append(idx)
 
     def _delay_of(self, L, u):
         d = L.node._spec.get("delay")
@@ -507,18 +532,24 @@ class FactoryOracle:
             u = self._unit_of_proc(L, proc)
             if u is not None:
                 self._offer(L, u)
-            if u is None and L.type == "source" and L.node._spec.get("out_sel") != "FIRST_AVAILABLE":
-                L.first_tries_out.append(self.edge_idx_out.get(id(edge)))
-            if u is not None and u.first_try_edge is None:
-                idx = self.edge_idx_out.get(id(edge))
-                u.first_try_edge = idx
-                sel = L.node._spec.get("out_sel")
-                if sel != "FIRST_AVAILABLE":
-                    L.first_tries_out.append(idx)
+                if u.first_try_edge is None:
+                    u.first_try_edge = self.edge_idx_out.get(id(edge))
+            self._attempt(L, proc, edge, None)
+            # batch of put reservations issued in one slice (FIRST_AVAILABLE)
+            b = L.put_batches.get(proc)
+            if b is None or b[0] != self.slice_no:
+                b = (self.slice_no, [])
+                L.put_batches[proc] = b
+            b[1].append((self.edge_idx_out.get(id(edge)), rec))
         else:
             sel = L.node._spec.get("in_sel")
             if sel is not None and sel != "FIRST_AVAILABLE":
                 L.in_attempts.append(self.edge_idx_in.get(id(edge)))
+            b = L.get_batches.get(proc)
+            if b is None or b[0] != self.slice_no:
+                b = (self.slice_no, [])
+                L.get_batches[proc] = b
+            b[1].append((self.edge_idx_in.get(id(edge)), rec))
 
     def _unit_of_proc(self, L, proc):
         if proc is None:
@@ -571,6 +602,7 @@ class FactoryOracle:
             return
         idx = self.edge_idx_out.get(id(edge))
         L.pushes.append((now, idx, sx.iid))
+        self._check_out_choice(L, proc, sx, idx)
         if L.type == "source":
             if L.cur_src_item is sx:
                 L.cur_src_item = None
@@ -614,6 +646,9 @@ class FactoryOracle:
         if L is None:
             return
         idx = self.edge_idx_in.get(id(edge))
+        self._check_in_choice(L, proc, idx)
+        sx.out_try = None
+        sx.can_log = []
         sx.last_getter = nid
         if L.type == "sink":
             self._set(sx, "RECEIVED", nid)
@@ -652,6 +687,54 @@ class FactoryOracle:
                           {"node": L.id, "held": L.held, "wc": wc})
         if L.type == "splitter" and sx.kind == "pallet":
             u.content = [getattr(i, "id", None) for i in x.items]
+
+    # ------------------------------------------------------------------ C15 (at the instant of choice)
+    def _check_out_choice(self, L, proc, sx, idx):
+        mon = self.mon
+        node = L.node
+        sel = node._spec.get("out_sel")
+        blocking = getattr(node, "blocking", True)
+        if sel == "FIRST_AVAILABLE":
+            if blocking:
+                b = L.put_batches.get(proc)
+                if b is not None:
+                    L.fa_checks += 1
+                    mon.counters["c15_fa_out_checks"] += 1
+                    for j, rec in b[1]:
+                        if j is not None and idx is not None and j < idx and rec.t_grant is not None:
+                            mon.violation("C15", "first_available_out", f"{L.type}:FIRST_AVAILABLE-pushed-on-a-higher-index-edge-although-a-lower-one-was-granted",
+                                          {"node": L.id, "used": idx, "lower_granted": j, "item": sx.iid})
+                            break
+            else:
+                if sx.can_log:
+                    L.fa_checks += 1
+                    mon.counters["c15_fa_out_checks"] += 1
+                    first_true = next((i for i, r in sx.can_log if r), None)
+                    if first_true != idx:
+                        mon.violation("C15", "first_available_out", f"{L.type}:FIRST_AVAILABLE-non-blocking-push-not-on-the-first-edge-that-could-accept",
+                                      {"node": L.id, "used": idx, "can_log": sx.can_log, "item": sx.iid})
+        else:
+            if sx.out_try is not None and idx != sx.out_try:
+                mon.violation("C15", "pushed_on_other_edge", f"{L.type}:item-pushed-on-an-edge-other-than-the-selected-one",
+                              {"node": L.id, "selected": sx.out_try, "used": idx, "item": sx.iid})
+
+    def _check_in_choice(self, L, proc, idx):
+        mon = self.mon
+        if L is None:
+            return
+        node = L.node
+        sel = node._spec.get("in_sel") if L.type != "sink" else "FIRST_AVAILABLE"
+        if L.type == "combiner":
+            return
+        b = L.get_batches.get(proc)
+        if sel == "FIRST_AVAILABLE" and b is not None:
+            mon.counters["c15_fa_in_checks"] += 1
+            L.fa_checks += 1
+            for j, rec in b[1]:
+                if j is not None and idx is not None and j < idx and rec.t_grant is not None and rec.state != "used":
+                    mon.violation("C15", "first_available_in", f"{L.type}:FIRST_AVAILABLE-pulled-from-a-higher-index-edge-although-a-lower-one-was-granted",
+                                  {"node": L.id, "used": idx, "lower_granted": j})
+                    break
 
     # ------------------------------------------------------------------ C16
     def _check_recipe(self, L, u, pallet):
@@ -843,18 +926,425 @@ class FactoryOracle:
         if self.finished:
             return
         self.finished = True
+        mon = self.mon
+        now = self.env.now
+        T = self.spec["T"]
         for fo in self.fleet_oracles:
-            fo.finish(self.env.now)
+            fo.finish(now)
+        crashed = exc is not None
+        self.crashed = crashed
+        if crashed:
+            return
+        for L in self.ledgers.values():
+            self._finish_policies(L)
+            self._finish_delays(L)
+        self._finish_buffer_delays()
+        self._finish_state_times(T)
+        self._finish_edge_stats(T)
+        self._finish_sinks()
+        if self.spec["variant"] == "finite":
+            self._finish_quiescence(T)
+
+    # ---------------------------------------------------------------- C15 at the end of the run
+    def _finish_policies(self, L):
+        mon = self.mon
+        node = L.node
+        spec = node._spec
+        outs = node.out_edges or []
+        ins = node.in_edges or []
+        osel = spec.get("out_sel")
+        isel = spec.get("in_sel")
+        tries = L.first_tries_out
+        if osel is not None and len(outs) >= 1 and tries:
+            mon.counters["c15_nodes_out_checked"] += 1
+            n = len(outs)
+            if osel == "ROUND_ROBIN":
+                exp = [i % n for i in range(len(tries))]
+                if tries != exp:
+                    k = next(i for i in range(len(tries)) if tries[i] != exp[i])
+                    mon.violation("C15", "round_robin_out", f"{L.type}:ROUND_ROBIN-out-sequence-not-cyclic",
+                                  {"node": L.id, "n": n, "at": k, "got": tries[max(0, k - 3):k + 3], "expected": exp[max(0, k - 3):k + 3]})
+            elif isinstance(osel, int):
+                if any(t != osel for t in tries):
+                    mon.violation("C15", "constant_out", f"{L.type}:constant-out-edge-index-not-obeyed", {"node": L.id, "k": osel, "got": tries[:8]})
+            elif isinstance(osel, dict):
+                sq = self.m.seqs.get(L.id + ".out")
+                vals = [v for _, v in sq.log]
+                if len(vals) != len(tries):
+                    mon.violation("C15", "selector_consultations_out", f"{L.type}:out-selector-not-consulted-exactly-once-per-item",
+                                  {"node": L.id, "consultations": len(vals), "items": len(tries)})
+                elif vals != tries:
+                    mon.violation("C15", "selector_answer_out", f"{L.type}:out-selector-answer-not-obeyed", {"node": L.id, "answers": vals[:8], "used": tries[:8]})
+            rec = node.stats.get("out_edge_selection")
+            if rec is not None and L.type != "source":
+                rec = list(rec)
+                if osel == "FIRST_AVAILABLE":
+                    if getattr(node, "blocking", True):
+                        obs = [i for (_, i, _) in L.pushes]
+                        if rec != obs:
+                            mon.violation("C15", "recorded_out_history", f"{L.type}:recorded-out_edge_selection-differs-from-actual-routing",
+                                          {"node": L.id, "recorded": rec[:10], "actual": obs[:10], "lens": (len(rec), len(obs))})
+                    else:
+                        self.mon.counters["c15_nonblocking_fa_records_nothing"] += (1 if not rec and L.pushes else 0)
+                else:
+                    if rec != tries:
+                        mon.violation("C15", "recorded_out_history", f"{L.type}:recorded-out_edge_selection-differs-from-actual-routing",
+                                      {"node": L.id, "recorded": rec[:10], "actual": tries[:10], "lens": (len(rec), len(tries))})
+        if isel is not None and len(ins) >= 1:
+            n = len(ins)
+            att = L.in_attempts
+            pulls = [i for (_, i, _) in L.pulls]
+            mon.counters["c15_nodes_in_checked"] += 1
+            if isel == "ROUND_ROBIN":
+                exp = [i % n for i in range(len(att))]
+                if att != exp:
+                    mon.violation("C15", "round_robin_in", f"{L.type}:ROUND_ROBIN-in-sequence-not-cyclic", {"node": L.id, "n": n, "got": att[:10]})
+            elif isinstance(isel, int):
+                if any(t != isel for t in att):
+                    mon.violation("C15", "constant_in", f"{L.type}:constant-in-edge-index-not-obeyed", {"node": L.id, "k": isel, "got": att[:8]})
+            elif isinstance(isel, dict):
+                sq = self.m.seqs.get(L.id + ".in")
+                vals = [v for _, v in sq.log]
+                if len(vals) != len(att):
+                    mon.violation("C15", "selector_consultations_in", f"{L.type}:in-selector-not-consulted-exactly-once-per-pull",
+                                  {"node": L.id, "consultations": len(vals), "attempts": len(att), "pulls": len(pulls)})
+                elif vals != att:
+                    mon.violation("C15", "selector_answer_in", f"{L.type}:in-selector-answer-not-obeyed", {"node": L.id, "answers": vals[:8], "used": att[:8]})
+            if isel != "FIRST_AVAILABLE":
+                if pulls != att[:len(pulls)] or len(att) - len(pulls) > 1:
+                    mon.violation("C15", "pulled_from_other_edge", f"{L.type}:pull-not-from-the-selected-in-edge",
+                                  {"node": L.id, "attempts": att[:10], "pulls": pulls[:10]})
+            rec = node.stats.get("in_edge_selection")
+            if rec is not None:
+                rec = list(rec)
+                if rec[:len(pulls)] != pulls or len(rec) - len(pulls) > 1:
+                    mon.violation("C15", "recorded_in_history", f"{L.type}:recorded-in_edge_selection-differs-from-actual-pulls",
+                                  {"node": L.id, "recorded": rec[:10], "actual": pulls[:10], "lens": (len(rec), len(pulls))})
+
+    # ---------------------------------------------------------------- C08 delay consultations
+    def _finish_delays(self, L):
+        mon = self.mon
+        if L.type not in ("machine", "splitter", "combiner"):
+            return
+        d = L.node._spec["delay"]
+        units = L.units if L.type != "combiner" else [u for u in L.units if u.t_gather is not None]
+        rec = L.node.stats.get("processing_delay")
+        if d["kind"] == "const":
+            vals = [d["seq"][0]] * len(units)
+        else:
+            sq = self.m.seqs[L.id + ".delay"]
+            vals = [v for _, v in sq.log]
+            mon.counters["c08_delay_consultations"] += len(vals)
+            if len(vals) != len(units):
+                mon.violation("C08", "delay_consultations", f"{L.type}:processing-delay-not-drawn-exactly-once-per-unit",
+                              {"node": L.id, "draws": len(vals), "units": len(units)})
+                return
+            for (t, v), u in zip(sq.log, units):
+                ref = u.t_in if L.type != "combiner" else u.t_gather
+                if abs(t - ref) > tol(ref):
+                    mon.violation("C08", "delay_drawn_late", f"{L.type}:processing-delay-drawn-at-another-instant-than-the-pull",
+                                  {"node": L.id, "drawn": t, "pulled": ref})
+                    break
+        if rec is not None and list(rec) != vals:
+            if not (L.type == "combiner" and list(rec) == vals[:len(rec)] and len(vals) - len(rec) <= 1):
+                mon.violation("C08", "recorded_delays", f"{L.type}:stats-processing_delay-differs-from-the-values-drawn",
+                              {"node": L.id, "recorded": list(rec)[:8], "drawn": vals[:8], "lens": (len(rec), len(vals))})
+
+    def _finish_buffer_delays(self):
+        mon = self.mon
+        for eid, edge in self.m.edges.items():
+            if not edge._spec["type"].startswith("buffer"):
+                continue
+            sh = mon.shadow(edge.inbuiltstore)
+            d = edge._spec["delay"]
+            seen = sh.delays_log
+            if d["kind"] == "const":
+                vals = [d["seq"][0]] * len(seen)
+            else:
+                vals = [v for _, v in self.m.seqs[eid + ".delay"].log]
+            mon.counters["c11_delay_draws_checked"] += len(seen)
+            if vals != seen:
+                mon.violation("C11", "buffer_delay_draws", "buffer:delay-source-not-consulted-once-per-put-or-other-value-travels-with-the-item",
+                              {"edge": eid, "drawn": vals[:8], "with_items": seen[:8], "lens": (len(vals), len(seen))})
+
+    # ---------------------------------------------------------------- C17
+    def _finish_state_times(self, T):
+        mon = self.mon
+        for L in self.ledgers.values():
+            node = L.node
+            try:
+                mon.suppress = True
+                node.update_final_state_time(T)
+            except Exception as e:
+                mon.suppress = False
+                mon.violation("C17", "finalise_crashed", f"{L.type}:update_final_state_time-raised:{type(e).__name__}",
+                              {"node": L.id, "T": T, "setup": node._spec.get("setup"), "exc": repr(e)[:200]})
+                continue
+            finally:
+                mon.suppress = False
+            tt = node.stats.get("total_time_spent_in_states", {})
+            eps = 1e-6 * max(1.0, T)
+            mon.counters["c17_nodes_checked"] += 1
+            if any(v < -eps for v in tt.values()):
+                mon.violation("C17", "negative_state_time", f"{L.type}:negative-state-time", {"node": L.id, "times": dict(tt)})
+            setup = node._spec.get("setup", 0) if L.type != "source" else 0
+            if L.type in ("source", "sink", "splitter", "combiner"):
+                tot = sum(tt.values())
+                if abs(tot - T) > eps:
+                    mon.violation("C17", "state_times_do_not_add_up", f"{L.type}:state-times-do-not-add-up-to-T",
+                                  {"node": L.id, "sum": tot, "T": T, "times": dict(tt), "setup": setup})
+            if L.type == "machine":
+                a = tt.get("SETUP_STATE", 0) + tt.get("IDLE_STATE", 0) + tt.get("ATLEAST_ONE_PROCESSING_STATE", 0) + tt.get("ALL_ACTIVE_BLOCKED_STATE", 0)
+                b = tt.get("SETUP_STATE", 0) + tt.get("IDLE_STATE", 0) + tt.get("ALL_ACTIVE_PROCESSING_STATE", 0) + tt.get("ATLEAST_ONE_BLOCKED_STATE", 0)
+                occ = sum(getattr(node, "time_per_work_occupancy", []) or [0])
+                for name, val in (("group_A", a), ("group_B", b), ("worker_occupancy", occ)):
+                    if abs(val - T) > eps:
+                        mon.violation("C17", "state_times_do_not_add_up", f"machine:{name}-does-not-add-up-to-T",
+                                      {"node": L.id, "sum": val, "T": T, "times": dict(tt), "setup": setup})
+            if L.type in ("machine", "splitter", "combiner"):
+                exp_setup = min(setup, T)
+                if abs(tt.get("SETUP_STATE", 0) - exp_setup) > eps:
+                    mon.violation("C17", "setup_not_charged", f"{L.type}:SETUP_STATE-time!=min(node_setup_time,T)",
+                                  {"node": L.id, "reported": tt.get("SETUP_STATE", 0), "expected": exp_setup})
+            # independent integration from pulls / offers / pushes
+            self._integrate(L, T, tt, eps)
+            for k, v in tt.items():
+                if v > eps:
+                    L.states_seen.add(k)
+
+    def _integrate(self, L, T, tt, eps):
+        mon = self.mon
+        node = L.node
+        if L.type == "source":
+            blocked = 0.0
+            for st in self.items.values():
+                if st.source == L.id:
+                    t1 = st.t_first_put
+                    if st.state == "CREATED":
+                        t1 = T
+                    elif st.state == "DISCARDED" and st.t_first_put is None:
+                        t1 = st.t_created
+                    if t1 is not None:
+                        blocked += max(0.0, min(t1, T) - st.t_created)
+            rep = tt.get("BLOCKED_STATE", 0)
+            mon.counters["c17_integrations"] += 1
+            if abs(rep - blocked) > eps * 10:
+                mon.violation("C17", "blocked_time_untruthful", "source:BLOCKED_STATE-time!=time-spent-holding-a-generated-item",
+                              {"node": L.id, "reported": rep, "measured": blocked, "T": T})
+            return
+        if L.type in ("splitter", "combiner"):
+            setup = min(node._spec.get("setup", 0), T)
+            proc = blk = 0.0
+            for u in L.units:
+                if L.type == "splitter":
+                    a = u.t_in
+                else:
+                    if u.t_gather is None:
+                        continue
+                    prev = L.units[u.k - 1].t_out if u.k > 0 else None
+                    a = max(u.t_gather, prev) if prev is not None else u.t_gather
+                    if prev is None and u.k > 0:
+                        continue      # previous pallet still blocked at T: this one never started
+                d = self._delay_of(L, u)
+                t_off = u.t_off if u.t_off is not None else (min(T, a + d) if d is not None else T)
+                t_out = u.t_out if u.t_out is not None else T
+                proc += max(0.0, min(t_off, T) - min(a, T))
+                blk += max(0.0, min(t_out, T) - min(t_off, T))
+            idle = T - setup - proc - blk
+            mon.counters["c17_integrations"] += 1
+            for k, mv in (("PROCESSING_STATE", proc), ("BLOCKED_STATE", blk), ("IDLE_STATE", idle)):
+                if abs(tt.get(k, 0) - mv) > eps * 10:
+                    mon.violation("C17", "state_time_untruthful", f"{L.type}:{k}-time-differs-from-measured-activity",
+                                  {"node": L.id, "state": k, "reported": tt.get(k, 0), "measured": mv, "T": T, "setup": setup,
+                                   "blocking": node._spec.get("blocking"), "units": len(L.units)})
+                    break
+            return
+        if L.type != "machine":
+            return
+        setup = node._spec.get("setup", 0)
+        ev = []
+        for u in L.units:
+            t_off = u.t_off
+            t_out = u.t_out
+            if t_off is None:
+                d = self._delay_of(L, u)
+                t_off = min(T, u.t_in + d) if d is not None else T
+                if t_off < T:
+                    t_off = T if u.t_out is None and u.t_off is None and (u.t_in + (d or 0)) > T else t_off
+            if t_out is None:
+                t_out = T
+            t_off = min(t_off, T)
+            t_out = min(t_out, T)
+            ev.append((u.t_in, 1, 0))
+            ev.append((t_off, -1, 1))
+            ev.append((t_out, 0, -1))
+        ev.sort(key=lambda e: e[0])
+        meas = Counter()
+        t = min(setup, T)
+        meas["SETUP_STATE"] = t
+        p = b = 0
+        i = 0
+        times = sorted({e[0] for e in ev} | {T})
+        cur = t
+        for tn in times:
+            if tn > cur:
+                dt = tn - cur
+                if p == 0 and b == 0:
+                    meas["IDLE_STATE"] += dt
+                if p > 0:
+                    meas["ATLEAST_ONE_PROCESSING_STATE"] += dt
+                if p > 0 and b == 0:
+                    meas["ALL_ACTIVE_PROCESSING_STATE"] += dt
+                if b > 0:
+                    meas["ATLEAST_ONE_BLOCKED_STATE"] += dt
+                if b > 0 and p == 0:
+                    meas["ALL_ACTIVE_BLOCKED_STATE"] += dt
+                cur = tn
+            while i < len(ev) and ev[i][0] <= tn:
+                p += ev[i][1]
+                b += ev[i][2]
+                i += 1
+        mon.counters["c17_integrations"] += 1
+        for k in ("IDLE_STATE", "ATLEAST_ONE_PROCESSING_STATE", "ALL_ACTIVE_PROCESSING_STATE", "ATLEAST_ONE_BLOCKED_STATE", "ALL_ACTIVE_BLOCKED_STATE"):
+            if abs(tt.get(k, 0) - meas[k]) > eps * 10:
+                mon.violation("C17", "state_time_untruthful", f"machine:{k}-time-differs-from-measured-activity",
+                              {"node": L.id, "state": k, "reported": tt.get(k, 0), "measured": meas[k], "T": T, "wc": node._spec.get("wc"),
+                               "blocking": node._spec.get("blocking")})
+                break
+
+    # ---------------------------------------------------------------- C18
+    def _finish_edge_stats(self, T):
+        mon = self.mon
+        for eid, edge in self.m.edges.items():
+            t = edge._spec["type"]
+            try:
+                mon.suppress = True
+                if t.startswith("buffer"):
+                    edge.update_final_buffer_avg_content(T)
+                    key = "time_averaged_num_of_items_in_buffer"
+                elif t == "fleet":
+                    edge.update_final_fleet_avg_content(T)
+                    key = "time_averaged_num_of_items_in_fleet"
+                else:
+                    edge.update_final_conveyor_avg_content(T)
+                    key = "time_averaged_num_of_items_in_conveyor"
+            except Exception as e:
+                mon.suppress = False
+                mon.violation("C18", "finalise_crashed", f"{t}:update_final_avg_content-raised:{type(e).__name__}", {"edge": eid, "exc": repr(e)[:200]})
+                continue
+            finally:
+                mon.suppress = False
+            store = getattr(edge, "inbuiltstore", None)
+            if store is None:
+                store = edge.belt
+            sh = mon.shadow(store)
+            integ = sh.integral + sh.occ * (T - sh.occ_t)
+            exp = integ / T if T > 0 else 0.0
+            rep = edge.stats.get(key)
+            mon.counters["c18_edge_avg_checks"] += 1
+            if sh.occ_changes >= 10:
+                mon.counters["c18_edges_with_10_changes"] += 1
+            if rep is None or abs(rep - exp) > 1e-6 * max(1.0, exp):
+                mon.violation("C18", "edge_time_average", f"{t.split('_')[0]}:time-averaged-occupancy!=integral-of-true-occupancy/T",
+                              {"edge": eid, "reported": rep, "expected": exp, "T": T, "changes": sh.occ_changes})
+
+    def _finish_sinks(self):
+        mon = self.mon
+        for L in self.ledgers.values():
+            if L.type != "sink":
+                continue
+            lo = hi = 0.0
+            n = 0
+            for st in self.items.values():
+                if st.state == "RECEIVED" and st.where == L.id:
+                    t_recv = st.t_state
+                    n += 1
+                    first = st.t_first_put if st.t_first_put is not None else st.t_created
+                    hi += t_recv - st.t_created
+                    lo += t_recv - first
+                    tc = getattr(st.item, "timestamp_creation", None)
+                    if tc is None or tc < st.t_created - tol(st.t_created) or tc > first + tol(first):
+                        mon.violation("C18", "creation_timestamp", "item:timestamp_creation-outside-[generation,first-put]",
+                                      {"item": st.iid, "stamp": tc, "generated": st.t_created, "first_put": first})
+            rep = L.node.stats.get("total_cycle_time")
+            mon.counters["c18_sink_checks"] += 1
+            mon.counters["c18_received_items"] += n
+            eps = 1e-6 * max(1.0, hi)
+            if rep is None or rep < lo - eps or rep > hi + eps:
+                mon.violation("C18", "cycle_time", "sink:total_cycle_time!=sum(reception-creation)",
+                              {"node": L.id, "reported": rep, "lower": lo, "upper": hi, "n": n})
+
+    # ---------------------------------------------------------------- C03 / C10 quiescence
+    def _finish_quiescence(self, T):
+        mon = self.mon
+        if any(L.type == "combiner" for L in self.ledgers.values()):
+            mon.counters["quiescence_skipped_combiner"] += 1
+            return
+        # drainable only if no node can wait forever on one in-edge while another one holds items
+        for L in self.ledgers.values():
+            if L.type in ("machine", "splitter") and len(L.node.in_edges or []) > 1 and L.node._spec.get("in_sel") != "FIRST_AVAILABLE":
+                mon.counters["quiescence_skipped_policy_can_starve_an_edge"] += 1
+                return
+        # input finished?
+        for L in self.ledgers.values():
+            if L.type == "source":
+                fin = L.node._spec["ia"].get("finite")
+                if fin is None or L.created < fin:
+                    mon.counters["quiescence_skipped_input_not_finished"] += 1
+                    return
+        last = max([st.t_state for st in self.items.values()] or [0])
+        mon.counters["quiescence_checked"] += 1
+        if T - last < 20:
+            mon.counters["quiescence_inconclusive_still_moving"] += 1
+            return
+        left = [st for st in self.items.values() if st.state in ("CREATED", "IN_EDGE", "IN_NODE")]
+        if left:
+            st = left[0]
+            mon.violation("C03", "not_drained", "factory:finite-input-but-an-item-is-neither-received-nor-discarded-at-quiescence",
+                          {"item": st.iid, "state": (st.state, st.where), "since": st.t_state, "n_left": len(left), "T": T})
+            mon.violation("C10", "stranded_at_quiescence", "factory:item-left-in-an-edge-or-node-at-quiescence",
+                          {"item": st.iid, "state": (st.state, st.where), "since": st.t_state, "n_left": len(left)})
+        for sh in mon.shadow_list:
+            if sh.edge is not None and (sh.grant["put"] or sh.grant["get"]):
+                side = "put" if sh.grant["put"] else "get"
+                mon.violation("C10", "granted_token_at_quiescence", f"factory:granted-{side}-reservation-outstanding-at-quiescence",
+                              {"edge": sh.label})
 
     def nontrivial(self):
         mon = self.mon
+        c = mon.counters
         n_recv = sum(1 for s in self.items.values() if s.state == "RECEIVED")
-        n_disc = mon.counters["discards"]
-        blocked = sum(L.blocked_intervals for L in self.ledgers.values())
+        n_disc = c["discards"]
+        Ls = list(self.ledgers.values())
+        blocked = sum(L.blocked_intervals for L in Ls)
+        multi = any(L.type == "machine" and L.max_held >= 2 for L in Ls)
+        pol = False
+        for L in Ls:
+            n_out = len(L.node.out_edges or [])
+            n_in = len(L.node.in_edges or [])
+            if (n_out >= 2 and len(L.pushes) >= 6) or (n_in >= 2 and len(L.pulls) >= 6 and L.type != "combiner"):
+                if blocked >= 1 or n_disc >= 1:
+                    pol = True
+        states3 = any(len(L.states_seen) >= 3 for L in Ls)
+        occ10 = c["c18_edges_with_10_changes"] >= 1
         return {
             "C03": (n_disc >= 1 or blocked >= 1) and n_recv >= 20,
             "C01": any(sh.stats["full_with_pending_put"] > 0 for sh in mon.shadow_list),
-            "C16": mon.counters["c16_pallets_checked"] >= 3,
+            "C02": c["c06_nontrivial_choices"] > 0,
+            "C04": sum(sh.stats["grants_after_wait"] for sh in mon.shadow_list) >= 5,
+            "C06": c["c06_nontrivial_choices"] > 0 and sum(sh.stats["cancel_granted_get"] for sh in mon.shadow_list) > 0,
+            "C08": multi and blocked >= 1,
+            "C09": n_disc >= 1 or blocked >= 1,
+            "C10": blocked >= 1 and n_recv >= 10,
+            "C11": c["c11_node_can_put_checked"] >= 5 or c["c11_delay_draws_checked"] >= 10,
+            "C12": any(e._spec["type"] in ("conv", "slotconv") for e in self.m.edges.values()) and n_recv >= 8,
+            "C14": any(getattr(fo, "nontrivial", False) for fo in self.fleet_oracles),
+            "C15": pol,
+            "C16": c["c16_pallets_checked"] >= 3,
+            "C17": states3 and not getattr(self, "crashed", True),
+            "C18": n_recv >= 20 and occ10,
+            "C19": n_recv >= 10,
+            "C20": True,
         }
 
     def sample(self):
